@@ -612,5 +612,7 @@ func main() {
 	genBatcherSwitch(*repo, *out)
 	genStages(*repo, *out)
 	genClientSites(*repo, *out)
+	genRetry(*repo, *out)
+	genWiring(*repo, *out)
 	fmt.Println("factgen: ok")
 }
